@@ -858,7 +858,7 @@ def check_upgrade(ctx):
     pol = f.params[0]
     ok = False
     n = 0
-    order_bad = snap_bad = None
+    order_bad = snap_bad = alias_bad = None
     for p in t.paths:
         stores = [e for e in p.events if e.kind == 'store' and isinstance(
             e.node, ast.Subscript) and U(e.node.value) == pol]
@@ -880,6 +880,24 @@ def check_upgrade(ctx):
             else:
                 ok = False
                 break
+            # an old-name override that merely points at the new policy
+            # (`old: rule:new`, the alias the sample file suggests; the
+            # enforcer keeps the new default for it, C11 `alias` row) is not
+            # moved: under the new name it would refer to itself
+            from .c11 import is_alias_text
+            newname_txt = U(e.node.slice)
+            alias_excluded = False
+            for c in p.conds[:e.nconds]:
+                if c.kind != 'test' or c.pol:
+                    continue
+                x = t.expand(c.expr)
+                if isinstance(x, ast.Compare) and len(x.ops) == 1 and \
+                        isinstance(x.ops[0], ast.Eq) and any(
+                            is_alias_text(o, newname_txt)
+                            for o in (x.left, x.comparators[0])):
+                    alias_excluded = True
+            if newname and from_old and not alias_excluded:
+                alias_bad = alias_bad or e
             # the old name is removed *before* the new one is written: when
             # a default changed under the same name the two are one key
             i_store = p.events.index(e)
@@ -887,12 +905,21 @@ def check_upgrade(ctx):
                     and method_call(x.node, 'pop') and U(
                         method_call(x.node)[0]) == pol] + [
                 i for i, x in enumerate(p.events) if x.kind == 'del']
-            differ = any(c.kind == 'test' and isinstance(
-                c.expr, ast.Compare) and isinstance(
-                    c.expr.ops[0], (ast.Eq, ast.NotEq)) and
-                'deprecated_rule.name' in U(t.expand(c.expr)) and (
-                    c.pol != isinstance(c.expr.ops[0], ast.Eq))
-                for c in p.conds[:e.nconds])
+            def names_differ(c):
+                # <x>.deprecated_rule.name compared with <x>.name
+                x = t.expand(c.expr)
+                if not (c.kind == 'test' and isinstance(x, ast.Compare)
+                        and len(x.ops) == 1 and isinstance(
+                            x.ops[0], (ast.Eq, ast.NotEq))):
+                    return False
+                a_, b_ = U(x.left), U(x.comparators[0])
+                if not ({a_.endswith('.deprecated_rule.name'),
+                         b_.endswith('.deprecated_rule.name')} == {True,
+                                                                   False}
+                        and a_.endswith('.name') and b_.endswith('.name')):
+                    return False
+                return c.pol != isinstance(x.ops[0], ast.Eq)
+            differ = any(names_differ(c) for c in p.conds[:e.nconds])
             if pops and '.pop(' not in vt and min(pops) > i_store and \
                     not differ:
                 order_bad = order_bad or e
@@ -919,6 +946,15 @@ def check_upgrade(ctx):
            'when a default changed its check under the same name both are '
            'one key, and the operator\'s override is deleted from the '
            'upgraded file')
+    ctx.ob('C18.UPGRADE', alias_bad is None, '%s:%d' % (F, alias_bad.line)
+           if alias_bad else W, f.qual, 'alias overrides',
+           'an override that only refers to the new policy is dropped, not '
+           'moved' if alias_bad is None else
+           'the value under a deprecated name is moved to the new name '
+           'without excluding the alias `rule:<new name>` (which the sample '
+           'file suggests for a deprecated name and the enforcer resolves '
+           'to the new default): the upgraded file says `new: rule:new`, a '
+           'self-reference - every decision on it fails')
     ctx.ob('C18.UPGRADE', snap_bad is None, '%s:%d' % (F, snap_bad.line)
            if snap_bad else W, f.qual, 'snapshot of the operator\'s policy',
            'values are read from a copy taken before any rename'
